@@ -1,5 +1,5 @@
 CONSTANTS
-  MaxLen = 7
+  MaxLen = 6
 SPECIFICATION Spec
 INVARIANTS ReaderIsDeclarative SliceIsDeclarative ReaderAgreesWithSlice DeliveredIsSuffix FoldIsMachine EmitCase
 CHECK_DEADLOCK FALSE
